@@ -3,6 +3,7 @@ import FeatModel.Lemmas.C16_scatter
 import FeatModel.Lemmas.C16_assembly
 import FeatModel.Lemmas.C16_identities
 import FeatModel.Lemmas.C16_banded
+import FeatModel.Lemmas.C16_burgers
 /-!
 # C16 — property theorems (statements only; proofs live in Lemmas/C16_*.lean)
 
@@ -13,9 +14,11 @@ every DOF table, every local matrix and every number of cells (no size bounds).
 
 What is *not* proved here (observed by the correspondence run with the exact oracle only): that the local
 matrices produced by the cell loop are the exact integrals (this needs the cubature rules of C14 and the basis
-polynomials of C15), the voxel assemblers, blocked value types.  `C16.FullStatement` records the full claim.
+polynomials of C15), the voxel assemblers; blocked value types and the Burgers operator are covered through the
+per-cell parameter logic (`burgers_*` theorems) and the exact route comparison of the correspondence run.
+`C16.FullStatement` records the full claim.
 -/
-open FeatModel.Asm FeatModel.Adj
+open FeatModel.Asm FeatModel.Adj FeatModel.Burgers
 
 /-- the full property, for reference: for exact local integrals the assembled operator is the exact bilinear form.
 The theorems below prove the assembly-logic part of it: `A = Σ_cells P_cᵀ loc_c P_c` on every route/order, and the
@@ -213,3 +216,58 @@ example :
     (bandedScatterAxpy 1 2 [1] ⟨#[none, none], #[(0 : Int)]⟩ (fun _ _ => 1) [0] [1] 1).map (·.data.toList) = some [1] ∧
     (bandedScatterAxpy 3 1 [1, 2] ⟨#[none], #[(0 : Int), 0, 0, 0, 0, 0]⟩ (fun i _ => if i = 0 then 1 else 2) [0, 1] [0] 1).map
       (·.data.toList) = some [0, 2, 0, 1, 0, 0] := by decide
+
+/-- **burgers_cellwise**: the streamline-diffusion scatter calls produced by the *stateful* cell loop of the Burgers routes
+(`local_delta` survives from cell to cell; reset and recomputed only under `need_streamdiff`, recomputed only if
+`|v_bary| > tol`, used only under `need_streamdiff && local_delta > tol`) are, for every initial state and every sequence
+of cells, the per-cell contributions computed from each cell alone. A route that leaks `local_delta` from one cell to
+the next therefore disagrees with this model. -/
+theorem C16.burgers_cellwise {α : Type} [Add α] [Mul α] [Div α] [OfNat α 0] [OfNat α 1] [OfNat α 2] [LT α] [DecidableLT α]
+    (p : Params α) (prev : α) (cells : List (Cell α)) :
+    sdCalls p prev cells = cells.map (sdCellCall p) :=
+  C16L.sdCalls_eq_map p prev cells
+
+/-- with streamline diffusion switched on, the sequence of `local_delta` values of one task is the per-cell formula -/
+theorem C16.burgers_delta_cellwise {α : Type} [Add α] [Mul α] [Div α] [OfNat α 0] [OfNat α 1] [OfNat α 2] [LT α] [DecidableLT α]
+    (p : Params α) (prev : α) (l : List (α × α)) (hs : p.needSD = true) :
+    deltaSeq p prev l = l.map fun q => localDelta p q.1 q.2 :=
+  C16L.deltaSeq_eq_map p prev l hs
+
+/-- documented `δ_T = 0`: a cell whose barycentre velocity vanishes (`¬ |v| > tol`) gets `local_delta = 0` and, the
+tolerance being non-negative, a zero streamline-diffusion local matrix — whatever the previous cell left behind -/
+theorem C16.burgers_stagnation_zero {α : Type} [Add α] [Mul α] [Div α] [OfNat α 0] [OfNat α 1] [OfNat α 2] [LT α] [DecidableLT α]
+    (p : Params α) (prev : α) (c : Cell α) (t : List (Cell α)) (hv : ¬ c.normV > p.tol) (htol : ¬ (0 : α) > p.tol) :
+    localDelta p c.normV c.h = 0 ∧
+    ∃ rest, sdCalls p prev (c :: t) = ⟨1, c.map, c.map, fun _ _ => 0⟩ :: rest := by
+  have h0 : localDelta p c.normV c.h = 0 := by simp [localDelta, hv]
+  refine ⟨h0, (t.map (sdCellCall p)), ?_⟩
+  have hz : sdLocal p 0 c.m = fun _ _ => 0 := by
+    funext i j
+    simp [sdLocal, htol]
+  rw [C16L.sdCalls_eq_map]
+  simp only [List.map_cons, sdCellCall, h0, hz]
+
+/-- **burgers_sd_assembled**: the streamline-diffusion part assembled by the stateful loop on the symbolic pattern is the
+sum over the cells of a term that depends on that cell only (any initial state, any cell order, cells may repeat). -/
+theorem C16.burgers_sd_assembled {α : Type} [Field α] [LT α] [DecidableLT α] (n : Nat) (maps : List (List Nat)) (g : Graph)
+    (hg : symbolicGraph1 n maps = some g) (hT : ∀ l ∈ maps, ∀ r ∈ l, r < n)
+    (p : Params α) (prev : α) (cells : List (Cell α)) (hcells : ∀ c ∈ cells, ∃ k, c.map = maps.getD k []) :
+    ∃ st, assemble (Pattern.ofGraph g) (sdCalls p prev cells) = some st ∧
+      ∀ (x : Nat → α) (r : Nat),
+        (Pattern.ofGraph g).apply st.data x r = (cells.map fun c => (sdCellCall p c).contrib x r).sum := by
+  rw [C16.symbolic_std1_eq_std2] at hg
+  rw [C16L.sdCalls_eq_map]
+  obtain ⟨st, h, _, sem⟩ := C16L.assembled_eq_sum n n maps maps g hg hT hT (cells.map (sdCellCall p))
+    (fun c hc => by
+      obtain ⟨c', hc', rfl⟩ := List.mem_map.mp hc
+      obtain ⟨k, hk⟩ := hcells c' hc'
+      exact ⟨k, hk, hk⟩)
+  refine ⟨st, h, fun x r => ?_⟩
+  rw [sem, List.map_map]
+  apply congrArg
+  apply List.map_congr_left
+  intro c _
+  simp [sdCellCall]
+
+/-- a stagnation cell between two cells with flow, evaluated: the middle `local_delta` is 0, not the previous cell's value -/
+example : deltaSeq (⟨0, 6, 1, 1, true⟩ : Params Int) 0 [(1, 1), (0, 0), (2, 1)] = [6, 0, 8] := by decide
